@@ -16,13 +16,16 @@ import (
 
 // Engine owns the scratch copy and the simulation binaries.
 type Engine struct {
-	S        *build.Scratch
-	Plain    map[string]string // world -> binary
-	Race     map[string]string
-	Rewrite  *rewrite.Stats
-	GenStats *rewrite.Stats
-	jobSeq   int
-	mu       sync.Mutex
+	S             *build.Scratch
+	Plain         map[string]string // world -> binary
+	Race          map[string]string
+	Rewrite       *rewrite.Stats
+	GenStats      *rewrite.Stats
+	Corpus        []CorpusPkg // regenerated corpus servers compiled into the csim binaries
+	CorpusSkipped map[string]string
+	CPlain, CRace string
+	jobSeq        int
+	mu            sync.Mutex
 }
 
 // Worlds are the feature configurations the one world spec is regenerated in. The generated API is the
@@ -33,12 +36,19 @@ var Worlds = []struct{ Name, Config string }{
 }
 
 // NewEngine prepares everything. withRace also builds the race binary.
-func NewEngine(id string, withRace bool) (*Engine, error) {
+func NewEngine(id string, withRace bool) (*Engine, error) { return NewEngineCorpus(id, withRace, 0) }
+
+// NewEngineCorpus additionally regenerates up to corpusLimit corpus servers (0 = none, < 0 = all that fit).
+func NewEngineCorpus(id string, withRace bool, corpusLimit int) (*Engine, error) {
 	s, err := build.NewScratch(id)
 	if err != nil {
 		return nil, err
 	}
-	if err := s.CopyRepo("/examples", "/internal/integration", "/_testdata", "/_logo"); err != nil {
+	excl := []string{"/examples", "/internal/integration", "/_logo"}
+	if corpusLimit == 0 {
+		excl = append(excl, "/_testdata")
+	}
+	if err := s.CopyRepo(excl...); err != nil {
 		return nil, err
 	}
 	// 1. the plain CLI of the tree under test regenerates the world
@@ -65,8 +75,13 @@ func NewEngine(id string, withRace bool) (*Engine, error) {
 			return nil, build.Toolf("regenerating worlds/x/world.yml (configuration %s) with the tree's CLI failed (exit %d): %s", w.Name, r.Exit, tail(string(r.Stderr), 3000))
 		}
 	}
+	var cpkgs []CorpusPkg
+	cskipped := map[string]string{}
+	if corpusLimit != 0 {
+		cpkgs, cskipped = prepareCorpus(s, corpusSpecs(s.Src, 60_000, max(corpusLimit, 0)))
+	}
 	// 2. instrument ogen's own packages
-	e := &Engine{S: s, Plain: map[string]string{}, Race: map[string]string{}}
+	e := &Engine{S: s, Plain: map[string]string{}, Race: map[string]string{}, CorpusSkipped: cskipped}
 	if e.Rewrite, err = simbuild.InstrumentOgen(s); err != nil {
 		return nil, err
 	}
@@ -91,6 +106,27 @@ func NewEngine(id string, withRace bool) (*Engine, error) {
 		}
 		patterns = append(patterns, "./xw"+w.Name+"/...")
 	}
+	if len(cpkgs) > 0 {
+		// the corpus harness: links and transport of xsim plus the raw-request driver
+		dst := filepath.Join(h, "csim")
+		_ = os.MkdirAll(dst, 0o755)
+		for _, f := range []string{"xsim/link.go", "xsim/transport.go", "csim/csim.go", "csim/csim_test.go"} {
+			b, err := os.ReadFile(filepath.Join(simbuild.SimSrc(), f))
+			if err != nil {
+				return nil, build.Toolf("%v", err)
+			}
+			if err := os.WriteFile(filepath.Join(dst, filepath.Base(f)), b, 0o644); err != nil {
+				return nil, build.Toolf("%v", err)
+			}
+		}
+		// packages that do not compile are dropped before the typed rewrite looks at them
+		if e.Corpus, err = weedCorpus(s, cpkgs, cskipped); err != nil {
+			return nil, err
+		}
+		if len(e.Corpus) > 0 {
+			patterns = append(patterns, "./cx/...")
+		}
+	}
 	// 4. instrument the regenerated packages with the same rules
 	e.GenStats, err = rewrite.Typed(rewrite.Options{
 		ModuleDir: h, Env: append(os.Environ(), s.Env()...), Patterns: patterns,
@@ -102,6 +138,32 @@ func NewEngine(id string, withRace bool) (*Engine, error) {
 	var wg sync.WaitGroup
 	var emu sync.Mutex
 	var firstErr error
+	if len(e.Corpus) > 0 {
+		for _, race := range []bool{false, true} {
+			if race && !withRace {
+				continue
+			}
+			wg.Add(1)
+			go func(race bool) {
+				defer wg.Done()
+				out := "csim.plain"
+				if race {
+					out = "csim.race"
+				}
+				bin, err := simbuild.BuildTest(s, "csim", out, race)
+				emu.Lock()
+				defer emu.Unlock()
+				if err != nil && firstErr == nil {
+					firstErr = err
+				}
+				if race {
+					e.CRace = bin
+				} else {
+					e.CPlain = bin
+				}
+			}(race)
+		}
+	}
 	for _, w := range Worlds {
 		for _, race := range []bool{false, true} {
 			if race && !withRace {
